@@ -104,7 +104,7 @@ pub fn stopwatch_borrowed_guards() {
     assert!(closed(&sw) == m.total, "stopwatch reports the total of kept spans");
 }
 
-// @check C18 thorough timeout=3600 mem=30
+// @check C18 thorough timeout=3600 mem=20
 // @encodes metrique::timers::{Stopwatch::start_owned, OwnedTimerGuard::{stop, discard, overwrite, drop}, MaybeGuardedDuration::{shared_cloned, take}, SharedDuration}, Stopwatch::start after owned guards, clear
 // @bounds two concurrently live owned guards started at different symbolic times, ended in a symbolic order with symbolic endings (drop/stop/discard/overwrite), then one borrowed episode; symbolic clear while an owned guard is live
 // @oracle reported duration == reference model: spans add in completion order, overwrite replaces what was accumulated so far, discard contributes nothing, clear forgets what was accumulated before it
